@@ -407,6 +407,10 @@ def check(ctx):
                             "excluded) is respected", ok, detail=detail,
            stmt="position_keys fallback " + detail)
 
+    # ---- shared mechanisms: the neighbour's rules run as obligations of this property
+    ctx.include("C07", "C08.R6", only=['C07.R3'])
+    ctx.rule("R6", "shared mechanisms, run as obligations of this property: the chunks of an epoch see the running epoch / kernel / model states (C07.R3).")
+
 
 def _is_posterior_pred(t) -> bool:
     if t[0] != "lambda" or len(t[1]) != 1:
